@@ -308,6 +308,13 @@ class OffsetBlock(SymBlock):
         return OffsetValue(off, self.coords, self.numblocks)
 
 
+def _exact_div(it, a, b):
+    """a // b where a is by construction a product containing b."""
+    q = it.ctx.fresh_int("stride", lo=0)
+    it.ctx.assume(q * b == a)
+    return q
+
+
 class OffsetValue:
     _pyvc_symbolic = True
 
@@ -376,6 +383,9 @@ def _check_block(c, it, blk, reg, tag, otag, j):
             g = tuple(r[0] + l for l, r in zip(loc, reg))
             got = blk.origin(loc)
             want = exp(j, g)
+            al = getattr(c, "aliases", {})
+            while got[0] in al:
+                got = (al[got[0]], got[1])
             if got[0] != want[0]:
                 _oblige(it, f"{otag}:element-comes-from-the-right-source", False, detail=f"{got[0]} != {want[0]}")
             else:
@@ -398,6 +408,30 @@ def install(c):
     it = c.interp
     S = prelude(c)
     S["cubed.primitive.blockwise:general_blockwise"] = primitive_gb_summary(c)
+
+    def rechunk_summary(it, fn, a, k):
+        """Contract of cubed.core.ops.rechunk (proved separately, see contracts/c14): same shape, dtype, spec and
+        element values (identity index map), chunks == normalize_chunks(requested); x itself when nothing changes."""
+        x, chunks = a[0], (a[1] if len(a) > 1 else k["chunks"])
+        if isinstance(chunks, dict):
+            raise Unsupported("rechunk with dict chunks")
+        chunks = tuple(lc if lc is not None else rc for lc, rc in zip(chunks, x.attrs["_chunks"]))
+        grids = normalize_chunks_contract(it, chunks, x.attrs["_shape"])
+        same = True
+        for g0, g1 in zip(x.attrs["_chunks"], grids):
+            e = as_grid(it, g0).grid_eq(as_grid(it, g1))
+            same = e if same is True else (same & e)
+        if it.truth(same):
+            return x
+        from .arrays import fresh_name
+
+        new = build_array(it, fresh_name(it), x.attrs["_shape"], grids, x.attrs["_dtype"], x.attrs["spec"])
+        c.aliases = getattr(c, "aliases", {})
+        c.aliases[new.attrs["name"]] = x.attrs["name"]
+        it.ctx.note_assumption("rechunk: contract used at call sites (identity on values, requested chunks); proved by the C14 contracts")
+        return new
+
+    S["cubed.core.ops:rechunk"] = rechunk_summary
 
     def plan_new(it, fn, a, k):
         # Plan._new(name, op_name, target, primitive_op, hidden, scalar_value, *source_arrays)
@@ -460,8 +494,39 @@ def install(c):
 
     S["cubed.storage.virtual:virtual_empty"] = virtual_empty
 
+    def block_id_to_offset(it, fn, a, k):
+        """np.ravel_multi_index(block_id, numblocks): row-major; ValueError for an out-of-range coordinate."""
+        bid, nb = tuple(a[0]), tuple(a[1])
+        it.ctx.note_assumption("np.ravel_multi_index / np.unravel_index are row-major and raise ValueError out of range")
+        if len(bid) != len(nb):
+            raise PyExc(ValueError, ("parameter multi_index must be a sequence of length %d" % len(nb),))
+        off = 0
+        for ci, n in zip(bid, nb):
+            if it.truth((ci < 0) | (ci >= n)):
+                raise PyExc(ValueError, ("invalid entry in coordinates array",))
+            off = off * n + ci
+        return off
+
+    S["cubed.utils:block_id_to_offset"] = block_id_to_offset
+
     def offset_to_block_id(it, fn, a, k):
         off, nb = a[0], a[1]
+        if isinstance(off, (int, SInt)):
+            nb = tuple(nb)
+            it.ctx.note_assumption("np.ravel_multi_index / np.unravel_index are row-major and raise ValueError out of range")
+            tot = 1
+            for n in nb:
+                tot = tot * n
+            if it.truth((off < 0) | (off >= tot)):
+                raise PyExc(ValueError, ("index is out of bounds for array with size",))
+            out = []
+            stride = tot
+            rem = off
+            for n in nb:
+                stride = stride // n if isinstance(stride, int) and isinstance(n, int) else _exact_div(it, stride, n)
+                out.append(rem // stride)
+                rem = rem % stride
+            return tuple(out)
         if isinstance(off, OffsetValue):
             # np.unravel_index(np.ravel_multi_index(coords, shape), shape) == coords is the round-trip lemma
             # (proved for ranks 1-4 by the utils contract); the numblocks used to decode must be the ones used to encode
